@@ -569,6 +569,19 @@ def run_translated(groups, workdir, repo=None):
         out = f"{path}:1:1: error: elaboration of the obligations did not finish in time (a changed function makes an evaluation diverge)"
         out = out.replace(path, "Translated.lean")
     forb = re.compile(r"\b(sorry|admit|native_decide|bv_decide|implemented_by|unsafe)\b|^axiom\s|maxHeartbeats 0\b", re.M)
+    # where each theorem starts in the work file, to attribute Lean's errors to theorems
+    flines = open(path).read().split("\n")
+    starts = sorted((i + 1, m.group(1)) for i, l in enumerate(flines) for m in [re.match(r"theorem\s+([^\s:({\[]+)", l)] if m)
+    errs = [(int(m.group(1)), m.group(0)) for m in re.finditer(r"Translated\.lean:(\d+):\d+: error:[^\n]*(?:\n(?!\S*Translated\.lean:\d+)[^\n]*){0,6}", out)]
+
+    def error_of(name):
+        for k, (ln, n) in enumerate(starts):
+            if n == name:
+                end = starts[k + 1][0] if k + 1 < len(starts) else len(flines) + 1
+                for eln, txt in errs:
+                    if ln <= eln < end:
+                        return txt
+        return None
     ok = []
     for g in groups:
         m = forb.search(g["bare"])
@@ -581,8 +594,7 @@ def run_translated(groups, workdir, repo=None):
             if not m or not ax <= ALLOWED_AXIOMS or "sorryAx" in ax:
                 why = "; ".join(missing)[:400] if missing else ""
                 if not why:
-                    err = re.search(r"Translated\.lean:\d+:\d+: error:[^\n]*(\n[^\n]*){0,6}", out)
-                    why = err.group(0)[:500] if err else "not proved"
+                    why = (error_of(n) or (errs[0][1] if errs else "not proved"))[:500]
                 bad.append((n, f"obligation about translated Go code no longer holds (translated/{g['name']}.lean over {path}): {why}"))
             else:
                 ok.append(n)
